@@ -14,6 +14,7 @@ import (
 	"sort"
 	"strings"
 	"sync"
+	"sync/atomic"
 	"time"
 )
 
@@ -69,6 +70,16 @@ type Ctx struct {
 	level     string
 	seq       int64
 	mode      string
+
+	finish  func(engineErr string)
+	curCase atomic.Value // *caseMark
+}
+
+type caseMark struct {
+	label string
+	data  interface{}
+	since time.Time
+	n     int64
 }
 
 func (c *Ctx) Quick() bool    { return c.Tier != "thorough" }
@@ -208,6 +219,32 @@ func (c *Ctx) Deadline() time.Time { return c.deadline }
 // Mode is the harness mode ("" or "race" for the free-running pass).
 func (c *Ctx) Mode() string { return c.mode }
 
+// Case marks the case being evaluated (for the stall watchdog).
+func (c *Ctx) Case(label string, data interface{}) {
+	c.curCase.Store(&caseMark{label: label, data: data, since: time.Now()})
+}
+
+// StartWatchdog reports a violation "stall/<label>" and ends the worker (summary written, exit 0) when
+// one case has been running for longer than limit of real time. It is a last resort behind
+// deterministic step horizons: limit must be generous.
+func (c *Ctx) StartWatchdog(limit time.Duration) {
+	go func() {
+		for {
+			time.Sleep(500 * time.Millisecond)
+			m, _ := c.curCase.Load().(*caseMark)
+			if m == nil || m.label == "" {
+				continue
+			}
+			if time.Since(m.since) > limit {
+				c.Violation("stall/"+m.label, fmt.Sprintf("the call did not return within %v of real time (%s)", limit, m.label), m.data)
+				c.Cap("worker ended by the stall watchdog")
+				c.finish("")
+				os.Exit(0)
+			}
+		}
+	}()
+}
+
 // Try runs f and converts a panic into (true, message).
 func Try(f func()) (panicked bool, msg string) {
 	defer func() {
@@ -292,6 +329,42 @@ func Main(chk Check) {
 		c.Seed = -*seed
 	}
 	var engineErr string
+	c.finish = func(engineErr string) {
+		c.mu.Lock()
+		defer c.mu.Unlock()
+		s := &Summary{Property: chk.ID, Tier: *tier, Shard: *shard, NShards: *nshards, Level: chk.Level,
+			Counters: c.counters, Distinct: map[string]int64{}, Info: c.info, Samples: c.samples,
+			Exhaustive: len(c.caps) == 0, Rule: c.rule, Assume: c.assume,
+			WallS: time.Since(c.start).Seconds(), EngineErr: engineErr}
+		for k, m := range c.distinct {
+			s.Distinct[k] = int64(len(m))
+		}
+		for k := range c.caps {
+			s.Caps = append(s.Caps, k)
+		}
+		sort.Strings(s.Caps)
+		keys := make([]string, 0, len(c.viol))
+		for k := range c.viol {
+			keys = append(keys, k)
+		}
+		sort.Strings(keys)
+		for _, k := range keys {
+			s.Violations = append(s.Violations, c.viol[k])
+		}
+		b, err := json.MarshalIndent(s, "", " ")
+		if err != nil {
+			fmt.Fprintln(os.Stderr, "summary marshal:", err)
+			os.Exit(2)
+		}
+		if *out == "" {
+			os.Stdout.Write(b)
+			os.Stdout.Write([]byte("\n"))
+		} else if err := os.WriteFile(*out, b, 0644); err != nil {
+			fmt.Fprintln(os.Stderr, err)
+			os.Exit(2)
+		}
+
+	}
 	func() {
 		defer func() {
 			if r := recover(); r != nil {
@@ -321,37 +394,7 @@ func Main(chk Check) {
 		chk.Run(c)
 	}()
 
-	s := &Summary{Property: chk.ID, Tier: *tier, Shard: *shard, NShards: *nshards, Level: chk.Level,
-		Counters: c.counters, Distinct: map[string]int64{}, Info: c.info, Samples: c.samples,
-		Exhaustive: len(c.caps) == 0, Rule: c.rule, Assume: c.assume,
-		WallS: time.Since(c.start).Seconds(), EngineErr: engineErr}
-	for k, m := range c.distinct {
-		s.Distinct[k] = int64(len(m))
-	}
-	for k := range c.caps {
-		s.Caps = append(s.Caps, k)
-	}
-	sort.Strings(s.Caps)
-	keys := make([]string, 0, len(c.viol))
-	for k := range c.viol {
-		keys = append(keys, k)
-	}
-	sort.Strings(keys)
-	for _, k := range keys {
-		s.Violations = append(s.Violations, c.viol[k])
-	}
-	b, err := json.MarshalIndent(s, "", " ")
-	if err != nil {
-		fmt.Fprintln(os.Stderr, "summary marshal:", err)
-		os.Exit(2)
-	}
-	if *out == "" {
-		os.Stdout.Write(b)
-		os.Stdout.Write([]byte("\n"))
-	} else if err := os.WriteFile(*out, b, 0644); err != nil {
-		fmt.Fprintln(os.Stderr, err)
-		os.Exit(2)
-	}
+	c.finish(engineErr)
 	if engineErr != "" {
 		fmt.Fprintln(os.Stderr, engineErr)
 		os.Exit(2)
